@@ -493,3 +493,107 @@ func ZZ_C09_ReloadVsExpiredInvalidation() {
 	vAssert(loadCalls <= 1, "c09x.at_most_one_reload")
 	vAssert(c.cache.singleflight.getCall(1) == nil, "c09x.no_inflight_record_left")
 }
+
+func init() { vRegister("ZZ_C08_RefreshJoin", ZZ_C08_RefreshJoin) }
+
+// ZZ_C08_RefreshJoin: two explicit Refresh calls of one key (optionally a loader-backed Get as the second caller) race;
+// the executor runs the reload in the refreshing thread, so the second caller either joins the load in flight or starts
+// after it finished. Every Refresh call gets a channel that holds exactly one result once the callers have returned
+// (C11), a caller that joined receives the in-flight result, invocations never overlap and nothing is left in flight
+// (C08), whatever the loader's outcome.
+func ZZ_C08_RefreshJoin() {
+	outcome := vChoice("outcome", 3) // 0 value, 1 error, 2 not found
+	second := vChoice("second", 2)   // 0 Refresh, 1 Get
+	pre := vChoice("pre", 2)
+	vScenario([]string{"value", "error", "notfound"}[outcome] + ";second=" + []string{"Refresh", "Get"}[second] + ";pre=" + []string{"absent", "present"}[pre])
+	c := Must(&Options[int, int]{
+		Logger:            &NoopLogger{},
+		RefreshCalculator: RefreshWriting[int, int](1 << 40),
+		Executor:          func(fn func()) { fn() },
+	})
+	const initial = 300
+	if pre == 1 {
+		c.Set(1, initial)
+	}
+	clk := &zzTick{}
+	var ivals []zzIval
+	body := func() (int, error) {
+		in := clk.now()
+		idx := 0
+		vAtomic(func() { ivals = append(ivals, zzIval{in: in}); idx = len(ivals) - 1 })
+		vYield()
+		out := clk.now()
+		vAtomic(func() { ivals[idx].out = out })
+		switch outcome {
+		case 0:
+			return 500 + idx, nil
+		case 1:
+			return 0, zzErrLoad
+		}
+		return 0, ErrNotFound
+	}
+	ld := &zzFnLoader{load: body, reload: body}
+	var chs [2]<-chan RefreshResult[int, int]
+	var gv int
+	var gerr error
+	var done [2]bool
+	A := func() { chs[0] = c.Refresh(context.Background(), 1, ld); done[0] = true }
+	B := func() {
+		if second == 0 {
+			chs[1] = c.Refresh(context.Background(), 1, ld)
+		} else {
+			gv, gerr = c.Get(context.Background(), 1, ld)
+		}
+		done[1] = true
+	}
+	vPar(A, B)
+	vAssert(done[0] && done[1], "c08j.every_caller_returns")
+	for i := 0; i < len(ivals); i++ {
+		for j := i + 1; j < len(ivals); j++ {
+			vAssert(ivals[i].out < ivals[j].in || ivals[j].out < ivals[i].in, "c08j.loader_invocations_do_not_overlap")
+		}
+	}
+	nref := 2 - second
+	for i := 0; i < nref; i++ {
+		vAssert(chs[i] != nil, "c08j.refresh_returns_a_channel")
+		if chs[i] == nil {
+			continue
+		}
+		vAssert(len(chs[i]) == 1, "c08j.exactly_one_result_per_refresh_call")
+		if len(chs[i]) != 1 {
+			continue
+		}
+		r := <-chs[i]
+		vAssert(r.Key == 1, "c08j.result_key")
+		switch outcome {
+		case 0:
+			vAssert(r.Err == nil && r.Value >= 500 && r.Value < 500+len(ivals), "c08j.refresh_result_is_a_loaded_value")
+		case 1:
+			vAssert(r.Err == zzErrLoad, "c08j.refresh_result_error")
+		default:
+			vAssert(errors.Is(r.Err, ErrNotFound), "c08j.refresh_result_notfound")
+		}
+	}
+	if second == 1 {
+		if gerr == nil {
+			vAssert(gv == initial || (gv >= 500 && gv < 500+len(ivals)), "c08j.get_returns_cached_or_loaded")
+		} else {
+			vAssert(outcome != 0, "c08j.get_fails_only_when_the_loader_fails")
+		}
+	}
+	vAssert(len(ivals) >= 1 && len(ivals) <= 2, "c08j.loader_invocation_count")
+	vAssert(c.cache.singleflight.getCall(1) == nil, "c08j.no_inflight_record_left")
+	if vParam("canary") == 1 {
+		vAssert(len(ivals) == 0, "c08j.canary")
+	}
+}
+
+// zzFnLoader: a Loader whose Load and Reload are harness closures.
+type zzFnLoader struct {
+	load, reload func() (int, error)
+}
+
+func (l *zzFnLoader) Load(ctx context.Context, key int) (int, error) { return l.load() }
+func (l *zzFnLoader) Reload(ctx context.Context, key int, old int) (int, error) {
+	return l.reload()
+}
